@@ -11,7 +11,7 @@ import (
 )
 
 var c07Floor = []string{"cte.1", "cte.chain2", "cte.chain3", "cte.twice.join", "cte.twice.union", "cte.twice.insub", "cte.selector", "derived", "derived.where",
-	"subq.nested", "subq.root", "subq.in", "subq.agg", "exists", "exists.outer", "subq.root-correlated", "derived.join", "subq.with", "agg.stages", "exists.dual", "inner.agg", "inner.order", "inner.filter", "cte.mixedcase", "exists.outer.marker", "exists.sparse", "subq.in.null-left", "exists.shadow", "exists.outer.marker-is", "cte.named-like-its-table", "cte.nested-with", "cte.nested-with.twice", "cte.union-chain3", "subq.in.qualified-item", "subq.notin"}
+	"subq.nested", "subq.root", "subq.in", "subq.agg", "exists", "exists.outer", "subq.root-correlated", "derived.join", "subq.with", "agg.stages", "exists.dual", "inner.agg", "inner.order", "inner.filter", "cte.mixedcase", "exists.outer.marker", "exists.sparse", "subq.in.null-left", "exists.shadow", "exists.outer.marker-is", "cte.named-like-its-table", "cte.nested-with", "cte.nested-with.twice", "cte.union-chain3", "subq.in.qualified-item", "subq.notin", "exists.naming.table-qualified", "exists.naming.alias", "exists.naming.alias-unqualified"}
 
 func init() {
 	fw.Register(&fw.Prop{
@@ -916,7 +916,27 @@ func c07Run(c *fw.Case) {
 				feats = append(feats, "exists.outer.marker-is")
 			}
 		}
-		composed += "EXISTS (SELECT e FROM arr WHERE " + gen.RenderPred(p, ro) + ")"
+		// the nested table's columns named with the table's own name, with an
+		// alias of the nested table, or without that alias
+		fromArr := "arr"
+		if !containsStr(feats, "exists.shadow") {
+			if ro.ColText == nil {
+				ro.ColText = map[string]string{}
+			}
+			switch c.Intn(7) {
+			case 0:
+				ro.ColText["e"], ro.ColText["f"] = "arr.e", "arr.f"
+				feats = append(feats, "exists.naming.table-qualified")
+			case 1:
+				fromArr = "arr a"
+				ro.ColText["e"], ro.ColText["f"] = "a.e", "a.f"
+				feats = append(feats, "exists.naming.alias")
+			case 2:
+				fromArr = "arr a"
+				feats = append(feats, "exists.naming.alias-unqualified")
+			}
+		}
+		composed += "EXISTS (SELECT e FROM " + fromArr + " WHERE " + gen.RenderPred(p, ro) + ")"
 		var want []any
 		trues := 0
 		for _, row := range t.Rows {
